@@ -25,6 +25,7 @@ import (
 	"strings"
 	"sync"
 	"testing"
+	"time"
 
 	"github.com/nuts-foundation/go-did/did"
 	"github.com/nuts-foundation/nuts-node/http/client"
@@ -209,11 +210,19 @@ func TestCheck(t *testing.T) {
 	h := &harness{t: t, r: r, rec: rec, router: router, classStats: map[string]*classStat{}, scriptStats: map[string]*scriptStat{}, urlSeen: map[string]bool{}}
 	h.scripts = buildScripts(r.Thorough())
 
-	h.webGrammar()
-	h.webScriptMatrix("standalone", router)
-	h.roundTrip()
-	h.keyMethods(router, "standalone", r.Pick(700, 20000))
-	h.localHistories()
+	// phase durations are information for the evidence only (no verdict depends on them)
+	phases := map[string]float64{}
+	timed := func(name string, f func()) {
+		t0 := time.Now()
+		f()
+		phases[name] = time.Since(t0).Seconds()
+	}
+	timed("didweb_grammar", h.webGrammar)
+	timed("didweb_script_matrix", func() { h.webScriptMatrix("standalone", router) })
+	timed("round_trip", h.roundTrip)
+	timed("key_methods", func() { h.keyMethods(router, "standalone", r.Pick(700, 20000)) })
+	timed("node_local_histories_and_chain", h.localHistories)
+	r.Extra("phase_seconds", phases)
 
 	r.Extra("didweb_identifier_classes", h.classStats)
 	r.Extra("didweb_server_scripts", h.scriptStats)
@@ -492,7 +501,9 @@ func buildScripts(thorough bool) []*script {
 		return "did:web:" + m + "."
 	})
 	mm("other-method", func(c *webCase) string { return "did:webs:" + msid(c) })
-	mm("did-jwk", func(c *webCase) string { return "did:jwk:eyJrdHkiOiJPS1AiLCJjcnYiOiJFZDI1NTE5IiwieCI6IkFBQUFBQUFBQUFBQUFBQUFBQUFBQUFBQUFBQUFBQUFBQUFBQUFBQUFBQUEifQ" })
+	mm("did-jwk", func(c *webCase) string {
+		return "did:jwk:eyJrdHkiOiJPS1AiLCJjcnYiOiJFZDI1NTE5IiwieCI6IkFBQUFBQUFBQUFBQUFBQUFBQUFBQUFBQUFBQUFBQUFBQUFBQUFBQUFBQUEifQ"
+	})
 	// bodies whose effective id is not a plain other DID: only the universal rule applies (a returned document must carry exactly the DID)
 	raw := func(name, kind string, body func(c *webCase) []byte) {
 		out = append(out, &script{name: name, kind: kind, fn: func(c *webCase, hop int, req *http.Request) (*http.Response, error) {
